@@ -15,8 +15,10 @@ object disappear and that object carries the delete-dependents finalizer, then
   deletion timestamp;
 * that pass found no task listed in `status.tasks`: not in the pod cache and, confirmed by a live GET
   for EVERY listed task whether recorded finished or not (fix 27db662), not on the server — so no pod
-  named in `status.tasks` exists in `s.pods` (other than one whose `GetTaskRef` would panic, which the
-  kubelet model of the engine never produces);
+  CONTROLLED BY THE JOB that is named in `status.tasks` exists in `s.pods` (other than one whose
+  `GetTaskRef` would panic, which the kubelet model of the engine never produces).  Since the repair of
+  F22 a pod of that name that is NOT controlled by the Job is not the task: it does not keep the
+  finalizer (`foreign_pod_does_not_block_removal` below) and is not deleted;
 * (repair of F-C20-1) that pass found no UNRECORDED task of the Job in the pod cache either: no cached
   pod labelled with and controlled by the Job that `status.tasks` does not name (a task that was
   created while the status update recording it failed) — `finalizerTasks s j j.job = []`;
@@ -27,8 +29,8 @@ theorem job_gone_implies_tasks_gone {ok : Sys → Action → Prop} {j0 : JobObj}
     (a : Action) (hal : Allowed j0 s a) (j : JobObj) (hj : s.job = some j) (hfin : j.finalizer = true)
     (hgone : (step s a).job = none) :
     a = .work ∧ s.jobCache = some j ∧ j.job.deletionTimestamp.isSome = true ∧
-    (∀ r ∈ j.job.status.tasks, getTaskForRef s r = none ∧ liveGetTask s r.name = none ∧
-      ∀ p, findPod s.pods r.name = some p → podTask p = none) ∧
+    (∀ r ∈ j.job.status.tasks, getTaskForRef s j r = none ∧ liveGetTask s j r.name = none ∧
+      ∀ p, findPod s.pods r.name = some p → p.ownerUid = some j.uid → podTask p = none) ∧
     (∀ p ∈ s.podCache, p.jobLabel = some j.uid → p.ownerUid = some j.uid →
       (∀ r ∈ j.job.status.tasks, r.name ≠ p.pod.name) → podTask p = none) ∧
     finalizerTasks s j j.job = [] ∧
@@ -37,19 +39,19 @@ theorem job_gone_implies_tasks_gone {ok : Sys → Action → Prop} {j0 : JobObj}
   obtain ⟨h4, hun⟩ := (Furiko.Props.C13.finalizerTasks_nil_iff s j j.job).mp h4'
   refine ⟨h1, h2, h3, ?_, fun p hp hl ho hn => hun p hp ⟨hl, ho, hn⟩, h4', h5⟩
   intro r hr'
-  have hlive := Furiko.Props.C13.confirmed_empty_means_gone s _ h4 r hr'
+  have hlive := Furiko.Props.C13.confirmed_empty_means_gone s j _ h4 r hr'
   refine ⟨?_, hlive, ?_⟩
   · unfold tasksForRefsConfirmed at h4
     rw [List.filterMap_eq_nil_iff] at h4
     have := h4 r hr'
     unfold getTaskForRefConfirmed at this
-    cases hg : getTaskForRef s r with
+    cases hg : getTaskForRef s j r with
     | none => rfl
     | some t => rw [hg] at this; cases this
-  · intro p hp
-    unfold liveGetTask at hlive
+  · intro p hp ho
+    unfold liveGetTask isControlledByJob at hlive
     rw [hp] at hlive
-    exact hlive
+    simpa [ho] using hlive
 
 /-- … and until that pass the finalizer stays on the object, whatever happens. -/
 theorem finalizer_stays_until_gone {ok : Sys → Action → Prop} {j0 : JobObj} {s : Sys} (hr : Reach ok j0 s)
@@ -62,6 +64,20 @@ finalizer pass and removed by the kubelet, all events delivered) the next pass r
 example : Reach anyAction Ex.job Ex.sF ∧ Ex.sF.job.map (·.finalizer) = some true ∧
     (step Ex.sF .work).job = none ∧ Ex.sF.pods = [] :=
   ⟨Ex.sF_reach, by decide +kernel, by decide +kernel, by decide +kernel⟩
+
+/-- F22, the finalizer, on a history: from `Ex.sF` (Job deleted by the user, its pod `job-h-0` deleted by
+the finalizer pass and gone) a pod controlled by ANOTHER Job is created under the recorded name
+`job-h-0` and reaches the pod cache; the next pass still removes the Job — the foreign pod does not keep
+the finalizer — and issues no pod call: the foreign pod is still there. -/
+theorem foreign_pod_does_not_block_removal :
+    let s := runActs Ex.sF [.createForeign Ex.foreignPod, .deliverPod]
+    Reach anyAction Ex.job s ∧ s.job.map (fun j => (j.finalizer, refNames j.job)) = some (true, ["job-h-0"]) ∧
+    s.podCache.map (fun p => (p.pod.name, p.ownerUid)) = [("job-h-0", some "other-uid")] ∧
+    (step s .work).job = none ∧
+    (step s .work).pods.map (fun p => (p.pod.name, p.ownerUid)) = [("job-h-0", some "other-uid")] ∧
+    (step s .work).calls.map (fun c => (c.verb, c.res, c.name, c.out)) = [("update", "jobs", "job", "ok")] :=
+  ⟨reach_run Ex.sF_reach _ (by decide +kernel), by decide +kernel, by decide +kernel, by decide +kernel,
+    by decide +kernel, by decide +kernel⟩
 
 /-- F18 regression.  Before commit 27db662 the finalizer pass trusted the pod cache for FINISHED refs:
 from `Ex.sB` (Job Finished / Success; `job-h-0` recorded finished by a live GET, never seen by the pod
